@@ -35,10 +35,10 @@ PROPS = {
                 release=False, leak_free=True),
     "C02": dict(families=["range", "random"], keys=["out", "ret", "len", "snap"], cfgs=any_cfg,
                 release=True, leak_free=True),
-    "C03": dict(families=["elem", "range", "clone", "random"], keys=["ev_user", "snap"], cfgs=any_cfg,
+    "C03": dict(families=["elem", "range", "clone", "lazyfuse", "random"], keys=["ev_user", "snap"], cfgs=any_cfg,
                 release=False, leak_free=True),
     "C04": dict(families=["types"], keys=["out", "ret", "len", "snap", "ev_user"], cfgs=any_cfg, release=False, leak_free=False),
-    "C13": dict(families=["handles", "elem"], keys=["out", "ret", "len", "snap", "ev_user"], cfgs=any_cfg, release=False, leak_free=True),
+    "C13": dict(families=["handles", "elem", "iter_nth"], keys=["out", "ret", "len", "snap", "ev_user"], cfgs=any_cfg, release=False, leak_free=True),
     "C17": dict(families=["parts"], keys=["out", "ret", "len", "cap", "snap", "ev_user", "ev_alloc"],
                 cfgs=lambda c: c["be"] in ("heap", "empty"), release=False, leak_free=True),
     "C05": dict(families=["elem", "range", "clone", "capacity", "random"], keys=["out", "ev_backend", "snap", "raw"],
@@ -57,8 +57,8 @@ PROPS = {
     "C11": dict(families=["elem", "range", "clone", "views"], keys=["out", "ret", "len", "cap", "snap", "ev_alloc"],
                 cfgs=is_stack, release=False, leak_free=True),
     "C12": dict(families=["views", "placement"], keys=["out", "ret", "len", "snap"], cfgs=any_cfg, release=False, leak_free=True),
-    "C14": dict(families=["iter", "iter_clone"], keys=["out", "ret"], cfgs=any_cfg, release=False, leak_free=True),
-    "C18": dict(families=["capacity", "elem", "range", "clone", "random"], keys=["out", "cap", "ev_alloc"],
+    "C14": dict(families=["iter", "iter_clone", "iter_nth"], keys=["out", "ret"], cfgs=any_cfg, release=False, leak_free=True),
+    "C18": dict(families=["capacity", "elem", "range", "clone", "parts", "random"], keys=["out", "cap", "ev_alloc"],
                 cfgs=is_heap, release=True, leak_free=True),
     # the harness is linked against any_vec built with default features disabled; the same cases also run
     # on the default build and the two implementations' full trace lines must be identical
@@ -130,6 +130,8 @@ def compare_case(pid, spec, cid, cfg, steps, family, mlines, ilines):
         # a panicking range operation or clone may leak (and only leak)
         may_leak = any(l.get("out") == "2" and op_word(st) in ("splice", "drain", "clone") for st, l in zip(steps, isteps))
         if spec.get("leak_free"):
+            # a step with an armed fuse / lying iterator / forgotten handle may leak (and only leak)
+            may_leak = may_leak or family in ("fuse", "liar", "forget", "lazyfuse")
             if e.get("live", "-") not in ("-", "0") and not may_leak:
                 return dict(step=n, key="leak", expected="live=0", observed="live=" + e["live"])
             if e.get("blocks", "0") != "0":
@@ -298,20 +300,13 @@ def run_check(pid, tier, seed, replay, t0):
         work = os.path.join(core.CACHE, "work", pid)
         os.system("rm -rf '%s'" % work)
         model, impl, crashed = core.run_batches([(c[0], c[1], c[2]) for c in cases], model_exe, routing, bindirs, work, pid)
-        # cases lost in a crashed shard are re-run one per process
-        if crashed:
-            lost = [c for c in cases if c[0] not in impl]
-            for c in lost[:200]:
-                b = routing.get(core.cfg_key(c[1]))
-                exe = os.path.join(bindirs["debug" if c[1]["trap"] else "release"], b)
-                line = "%s %s ; %s" % (c[0], gen.cfg_head(c[1]), " ; ".join(c[2]))
-                rc, tr, out = core.run_single(line, exe, os.path.join(work, "single"), c[0])
-                impl[c[0]] = tr.get(c[0], [])
-                if rc != 0 and not impl[c[0]]:
-                    impl[c[0]] = [{"_step": "0", "_raw": "<process died rc=%d>" % rc, "viol": "process-died_rc=%d" % rc}]
+        ran = set(core.RAN)
         for cid, cfg, steps, fam in cases:
             il = impl.get(cid)
             ml = model.get(cid)
+            if il is None and cid in ran:
+                # handed to the harness but no trace came back: never skipped silently
+                il = [{"_step": "0", "_raw": "<no trace>", "viol": "trace-missing"}]
             if il is None or (len(il) == 1 and "_skipped" in il[0]):
                 continue
             stats["evaluations"] += 1
